@@ -5,34 +5,34 @@ ENTRY = {
     "rule": "cases: multi-file (1-4) REAL Parquet tables written by the harness, 1-4 columns over Int64/Int32/Int16/Date32/Timestamp (+ Utf8/Float64 "
             "bystanders), 0-7 row groups per file of 1-24 rows (one write+flush each), per-file per-column NULL density in {0,10,50,100}% plus all-NULL "
             "chunks, value domains small/medium/per-file-offset/wide; per file: statistics disabled for all or some columns (prob 1/5, 1/6 per column), "
-            "page-level statistics (1/5); 1/6 of the tables are the 'extreme' stratum (values at the type's min/max, all statistics on); 1/25 carry a "
+            "page-level statistics (1/5); 1/6 of the tables are the 'extreme' stratum (values at the type's min/max, all statistics on), 1/6 the 'unsigned' stratum (UInt32/UInt64 columns incl. values >= 2^31 / 2^63, all statistics on); 1/25 carry a "
             "corrupt extra file; opened by directory (2/3) or explicit file list. The footer part of the case (null_count, min/max, bytes) is read back "
             "from the written file through the parquet crate. non-trivial = >= 2 row groups and >= 2 rows; distinct by sha256 of the canonical case",
     "trusted_base": COMMON_TB + [
         "modelled not verified: the footer fold of ParquetTable::compute_statistics (IQE.Engine.StatsFold); the dictionary-page NDV probe for string columns is not modelled",
         "parquet crate: footer parsing (Statistics::{Int32,Int64} min_opt/max_opt/null_count_opt) and the Arrow writer producing truthful chunk statistics "
         "(hypothesis ReportsSound of the theorems; cross-checked on every case: written values vs scan vs footers)",
-        "harness build profile: dev with overflow checks (the C18-F2 arithmetic panics; a release build would wrap to ndv_est = 0 instead)",
+        "harness build profile: dev with overflow checks (an arithmetic overflow in the fold would panic and be reported; a release build would wrap silently)",
     ],
     "assumptions": [
         "all files of a table have the same flat schema with distinct lower-case column names (the fold keys chunks by lower-cased dotted path)",
-        "unsigned integer columns (UInt32/UInt64, whose footer min/max are bit-reinterpreted by the Int32/Int64 arms) are not generated by default (--opt unsigned=1 probes them)",
-        "the extreme-range stratum and the statistics-less stratum are generated in separate tables so each known defect is attributed on its own",
+        "the extreme-range stratum, the statistics-less stratum and the unsigned-column stratum (UInt32/UInt64; a UInt64 column holds either only values < 2^61 or only values >= 2^63) "
+        "are generated in separate tables so each known defect is attributed on its own; their interplay in one column is not sampled",
     ],
-    "min_tags": {"has-silent-chunk": 1, "all-report": 1, "all-null-chunk": 1, "impl-ok": 1},
+    "min_tags": {"has-silent-chunk": 1, "all-report": 1, "all-null-chunk": 1, "impl-ok": 1, "unsigned-col": 1},
     "manifest": {
         "category": "proof",
         "text": "Lean theorems over the executable model of the footer fold (Engine.StatsFold), for every table (any files / row groups / chunks, any mix of "
                 "chunks with and without statistics): row count = rows of every column (C18_rows_exact); a published null count is the true NULL count and is "
                 "published iff every chunk reports one (C18_nulls_exact, C18_nulls_present_iff); for the intended algorithm every non-NULL value lies within "
                 "the published min/max, assuming only that what a footer reports is true of its chunk (C18_minmax_sound[_table]); statistics() cannot fail "
-                "(C18_stats_total). The unchanged tree deviates in two places, each a deviation switch with a kernel-checked negation witness and a real-file "
-                "witness: C18-F1 (a chunk without statistics keeps the other chunks' min/max as table bounds) and C18-F2 ((max-min) overflow panics). "
+                "(C18_stats_total). The tree deviated in three places (repaired by fix: 35af6bd; each remains a deviation switch with a kernel-checked negation witness, and its real-file "
+                "witness is replayed from corpus/C18 on every run): C18-F1 (a chunk without statistics keeps the other chunks' min/max as table bounds) C18-F2 ((max-min) overflow panics) and C18-F3 (unsigned columns' footer bounds read as signed). "
                 "Tie: correspondence on real Parquet files (statistics() vs model on the footers read back; oracle = statistics vs a scan).",
         "design_ref": "DESIGN.md §6 C18",
         "level_note": "Trusted: Lean kernel; axioms propext/Classical.choice/Quot.sound; the hand-written model of the fold (validated by correspondence only); the parquet "
                       "crate's writer/footer reader; harness generators. Not covered: 'an estimate never decides an answer' (ndv_est consumers) is C03's gate soundness, "
-                      "here only ndv_est <= non-null rows and no-panic are proved; the string-column dictionary NDV probe; nested columns; unsigned logical types.",
+                      "here only ndv_est <= non-null rows and no-panic are proved; the string-column dictionary NDV probe; nested columns; decimal/float bounds (not published by the fold).",
         "technique": "Lean 4 proof over executable model + differential correspondence with the Rust code on real Parquet files",
     },
 }
